@@ -312,10 +312,24 @@ def check_mirror(ctx):
         f = cands[0]
         where = ctx.where(f)
         nodes = preorder(f.body)
-        pushes = all_indices(nodes, lambda n: is_mcall(n, "push", "scopes"))
+        pushes = all_indices(nodes, lambda n: is_mcall(n, "push", "scopes") or is_mcall(n, "extend", "scopes"))
         slot_push = [i for i in pushes if mentions(nodes[i], "attr") or mentions(nodes[i], "slot_value_refs")]
         item_push = [i for i in pushes if mentions(nodes[i], "item_name")]
         index_push = [i for i in pushes if mentions(nodes[i], "index_name")]
+        # `for name in [item_name, index_name] { scopes.push(..name..) }`: one push, executed in the order of the array
+        pm_ = sir.parent_map(f.body)
+        for i in pushes:
+            cur = nodes[i]
+            while id(cur) in pm_:
+                cur = pm_[id(cur)]
+                if cur.get("k") == "for" and sir.strip_ref(cur["e"]).get("k") == "array":
+                    elems = [sir.expr_str(x) for x in sir.strip_ref(cur["e"])["elems"]]
+                    it = [k_ for k_, t_ in enumerate(elems) if "item_name" in t_]
+                    ix = [k_ for k_, t_ in enumerate(elems) if "index_name" in t_]
+                    if it and ix and not item_push and not index_push:
+                        item_push = [i + 0.1 * it[0]]
+                        index_push = [i + 0.1 * ix[0]]
+                    break
         values = first_index(nodes, lambda n: is_mcall(n, "for_each_value_mut"))
         arity = len([p for p in f.params if not p.get("self")])
         rec = all_indices(nodes, lambda n: n.get("k") == "mcall" and n["m"] == f.name and len(n["args"]) == arity and sir.expr_str(n["recv"]) != "self")
